@@ -858,4 +858,105 @@ theorem corner_resolveOnce (st : Static) (first : Bool) (nodes : List AstNode) (
       (by rw [h1]; exact StEq.refl d1) (fun n _ k' _ => by rw [h1]; exact OwnSame.refl d1 n k')
     rw [hb, this]
 
+/-! ## the two settings: the same outcome at every budget of at least two -/
+
+/-- an outcome without its iteration count -/
+def dropK (x : Nat × Defs × List String) : Defs × List String := (x.2.1, x.2.2)
+
+theorem finish_dropK (st : Static) (nodes : List AstNode) (i j : Nat) (d : Defs) (rep : List String) :
+    (finish st nodes (.ok (i, d, rep, false))).map dropK = (finish st nodes (.ok (j, d, rep, false))).map dropK := by
+  simp only [finish]
+  cases resolveOnce st nodes false true d with
+  | error e => obtain ⟨m, r⟩ := e; rfl
+  | ok x =>
+    obtain ⟨d', s, r⟩ := x
+    cases s <;> rfl
+
+theorem usFin_dropK (H : Nat → Bool) (x y : Except (List String) (Nat × Defs × List String))
+    (h : x.map dropK = y.map dropK) : (x.map (usFin H)).map dropK = (y.map (usFin H)).map dropK := by
+  cases x with
+  | error e =>
+    cases y with
+    | error e' => simp only [Except.map] at h ⊢; exact h
+    | ok b => simp [Except.map] at h
+  | ok a =>
+    cases y with
+    | error e' => simp [Except.map] at h
+    | ok b =>
+      simp only [Except.map, Except.ok.injEq, dropK, usFin] at h ⊢
+      obtain ⟨h4, h5⟩ := Prod.mk.inj h
+      rw [h4, h5]
+
+/-- **C08 for the static switch, at the level of the iteration**: for every budget of at least two the
+    two assemblers fail with the same messages or succeed with the same values and messages; only the
+    iteration count may differ (by the one pass the unoptimised assembler needs more when the
+    optimised first pass is already stable). -/
+theorem resolveIterativelyN_switch_outcome (H : Nat → Bool) (st : Static) (nodes : List AstNode) (d0 : Defs)
+    (f : FrontOK st nodes d0) (fs : FrontOKS st nodes d0 H) (ho : st.opts.optStatic = true) (hwf : NoClash nodes)
+    (u : Uniq nodes) (hok0 : NodesOK d0 nodes) (m : Nat) :
+    (resolveIterativelyN (st.withStatic false) nodes (m + 2) (d0.unfS H)).map dropK =
+      ((resolveIterativelyN st nodes (m + 2) d0).map (usFin H)).map dropK := by
+  by_cases hagree : ∀ d1 r1, resolveOnce st nodes true false d0 = .ok (d1, true, r1) →
+      resolveOnce (st.withStatic false) nodes true false (d0.unfS H) = .ok (d1.unfS H, true, r1)
+  · rw [resolveIterativelyN_switch_lockstep H st nodes d0 f fs ho m hagree]
+  · have hex : ∃ d1 r1, resolveOnce st nodes true false d0 = .ok (d1, true, r1) ∧
+        ¬ resolveOnce (st.withStatic false) nodes true false (d0.unfS H) = .ok (d1.unfS H, true, r1) := by
+      refine Classical.byContradiction fun hno => hagree fun d1 r1 hp => ?_
+      exact Classical.byContradiction fun hn => hno ⟨d1, r1, hp, hn⟩
+    obtain ⟨d1, r1, hp, hn⟩ := hex
+    have g0 := good_init st nodes d0 f
+    have gc0 := goodC_init st nodes d0 H fs
+    have sim := resolveOnce_sim H st nodes d0 f fs true false (fun _ => rfl) d0 g0 gc0 (by simpa using ho)
+    rw [hp] at sim
+    obtain ⟨gc1, s2, e2, _, _⟩ := sim
+    have hs2 : s2 = false := by
+      cases s2 with
+      | false => rfl
+      | true => exact absurd e2 hn
+    subst hs2
+    obtain ⟨g1, k31⟩ := resolveOnce_good st nodes d0 f true false d0 d1 true r1 g0 (by simpa using ho) hp
+    rw [resolveIterativelyN_finish, resolveIterativelyN_finish, iterLoop_first, iterLoop_first, hp, e2]
+    simp only [if_true, Bool.false_eq_true, if_false]
+    cases m with
+    | zero =>
+      -- budget 2: the second pass of the unoptimised assembler is the confirming pass of the other
+      have h1 : ¬ (1 ≥ 0 + 2) := by omega
+      have h2 : ((1 + 1 : Nat) == 1) = false := by decide
+      have h3 : ((1 + 1 : Nat) == 0 + 2) = true := by decide
+      rw [iterLoop]
+      simp only [h1, if_false, h2, h3]
+      have sim2 := resolveOnce_sim H st nodes d0 f fs false true (fun hh => by cases hh) d1 g1 gc1 (by simpa using k31)
+      simp only [finish]
+      cases hq : resolveOnce st nodes false true d1 with
+      | error e =>
+        rw [hq] at sim2
+        simp only at sim2
+        rw [sim2]
+        obtain ⟨msg, r⟩ := e
+        rfl
+      | ok x =>
+        obtain ⟨d', s', r2⟩ := x
+        rw [hq] at sim2
+        obtain ⟨_, s2', e2', _, i2'⟩ := sim2
+        have : s2' = s' := i2' rfl
+        subst this
+        rw [e2']
+        cases s2' <;> rfl
+    | succ m' =>
+      have hq := corner_resolveOnce st true nodes hwf u d0 d1 r1 hok0 hp
+      have sim2 := resolveOnce_sim H st nodes d0 f fs false false (fun hh => by cases hh) d1 g1 gc1 (by simpa using k31)
+      rw [hq] at sim2
+      obtain ⟨_, s2', e2', _, i2'⟩ := sim2
+      have : s2' = true := i2' rfl
+      subst this
+      have h1 : ¬ (1 ≥ m' + 1 + 2) := by omega
+      have h2 : ((1 + 1 : Nat) == 1) = false := by decide
+      have h3 : ((1 + 1 : Nat) == m' + 1 + 2) = false := by
+        have : (1 + 1 : Nat) ≠ m' + 1 + 2 := by omega
+        simp
+      rw [iterLoop]
+      simp only [h1, if_false, h2, h3, e2', if_true, Bool.false_eq_true, List.append_nil]
+      rw [finish_sim H st nodes d0 f fs (1 + 1) d1 _ false g1 gc1 k31]
+      exact usFin_dropK H _ _ (finish_dropK st nodes (1 + 1) 1 d1 ([] ++ r1))
+
 end Casm
